@@ -437,6 +437,12 @@ static int dr_stream_get_buffered_data(sqfs_istream_t *base,
 		sqfs_u32 blkword = stream->blocks[stream->blk_idx++];
 		sqfs_u32 disksz = SQFS_ON_DISK_BLOCK_SIZE(blkword);
 
+		if (disksz > stream->buf_used) {
+			/* more data than the block can hold, see get_block */
+			ret = SQFS_ERROR_OVERFLOW;
+			goto fail;
+		}
+
 		if (disksz == 0) {
 			memset(stream->buffer, 0, stream->buf_used);
 		} else if (SQFS_IS_BLOCK_COMPRESSED(blkword)) {
